@@ -88,7 +88,8 @@ func (P *Program) findIntrinsic(fn *ssa.Function) intrinsicFn {
 				for cf.Parent() != nil {
 					cf = cf.Parent()
 				}
-				base := filepath.Base(P.fset.Position(cf.Pos()).Filename)
+				fname := P.fset.Position(cf.Pos()).Filename
+				base := filepath.Base(fname)
 				for _, e := range entries {
 					if cf == e.fn {
 						stub = nil // the stub itself may call the function it replaces
@@ -100,6 +101,10 @@ func (P *Program) findIntrinsic(fn *ssa.Function) intrinsicFn {
 					}
 					for _, fl := range e.files {
 						if fl == base {
+							stub = e.fn
+						}
+						// files=*: every call site in the package directory (harness files excluded)
+						if fl == "*" && filepath.Dir(fname) == e.dir && !strings.HasPrefix(base, "zz_verif_") {
 							stub = e.fn
 						}
 					}
